@@ -13,6 +13,7 @@ for f in sorted(prog.fns.values(), key=lambda x: x.id):
     if f.kind == "closure":
         continue
     out.append({"id": f.id, "name": f.name, "sig": facts.fn_signature(f)})
-json.dump({"_doc": "function identities of the tree the rules were written against (git -C /repo rev-parse HEAD at generation time is in `commit`)",
-           "commit": os.popen("git -C /repo rev-parse --short HEAD").read().strip(), "functions": out}, open(os.path.join(HERE, "anchors.json"), "w"), indent=0)
-print(len(out), "anchors")
+adts = [{"path": pth, "shape": facts.adt_shape(a)} for pth, a in sorted(prog.adts.items()) if pth.startswith(("tsg::", "cli::"))]
+json.dump({"_doc": "function and type identities of the tree the rules were written against (git -C /repo rev-parse HEAD at generation time is in `commit`)",
+           "commit": os.popen("git -C /repo rev-parse --short HEAD").read().strip(), "functions": out, "adts": adts}, open(os.path.join(HERE, "anchors.json"), "w"), indent=0)
+print(len(out), "anchors,", len(adts), "types")
